@@ -1,6 +1,7 @@
 """C07 — dependency inversion: Impl<T> reaches the selected implementation block."""
 from ..common import Report
-from ..corpus import load, load_kf, load_repo_tests
+from ..corpus import load, load_kf, load_repo_tests, load_repo_examples
+from ..docgen import load_repo_docs
 from ..crossgen import load_cross
 from ..wrules import check_trait_forwarding, check_implblock, check_inversion_traits
 
@@ -13,6 +14,8 @@ def run(tier):
     loaded += [(cfg, load_cross(rep, cfg, tier)) for cfg in configs]
     if tier == "thorough":
         loaded.append(("unimock_test", load_repo_tests(rep)))
+        loaded += [("unimock_test", ld) for ld in load_repo_examples(rep)]
+        loaded.append(("unimock_test", load_repo_docs(rep)))
     for cfg, ld in loaded:
         for exp in ld.crate.expansions:
             if exp.mode == "trait" and exp.attr and exp.attr.positional:
